@@ -271,6 +271,10 @@ RECURSIVE SetQuals(_, _, _)
 SetQuals(sets, i, ns) == IF i > Len(sets) THEN <<>>
                          ELSE << <<"SET", "", sets[i].col>> >> \o QualsOf(<<sets[i].val>>, ns, "SET") \o SetQuals(sets, i + 1, ns)
 
+RECURSIVE OcUpdQuals(_, _, _)
+OcUpdQuals(us, i, ns) == IF i > Len(us) THEN <<>>
+                         ELSE << <<"ON CONFLICT", "", us[i].col>> >> \o QualsOf(<<us[i].val>>, ns, "ON CONFLICT") \o OcUpdQuals(us, i + 1, ns)
+
 \* expected (clause, qualifier, column) triples of the whole statement, in textual order per statement kind and dialect
 QualSeq(b, d) ==
     IF ~Complete(b) THEN <<>>
@@ -283,7 +287,14 @@ QualSeq(b, d) ==
              tailq == joinq \o QualsOf(b.pre, ns, "PREWHERE") \o whrq \o QualsOf(b.grp, ns, "GROUP BY")
                       \o QualsOf(b.hav, ns, "HAVING") \o ordq
              setq == SetQuals(b.sets, 1, ns)
-             ocq == IF b.oc /\ d # "mysql" THEN BareOf(b.ocf, "ON CONFLICT") ELSE <<>>
+             \* ON CONFLICT (targets bare) [WHERE index predicate] DO UPDATE SET col = value, .. [WHERE ..]: SET targets are bare names,
+             \* the assigned values and the DO UPDATE predicate are always qualified (they must be told from EXCLUDED.col)
+             ocq == IF b.oc /\ d # "mysql"
+                    THEN BareOf(b.ocf, "ON CONFLICT") \o QualsOf(b.ocw, ns, "ON CONFLICT")
+                         \o OcUpdQuals(b.ocupd, 1, TRUE) \o (IF b.ocupd # <<>> THEN QualsOf(b.ocuw, TRUE, "ON CONFLICT") ELSE <<>>)
+                    \* MySQL: ON DUPLICATE KEY UPDATE col = value, no target list, no predicates; one row source, so nothing is qualified
+                    ELSE IF b.oc THEN OcUpdQuals(b.ocupd, 1, FALSE)
+                    ELSE <<>>
              retq == IF d = "postgresql" THEN QualsOf(b.ret, ns, "RETURNING") ELSE <<>>
          IN
          IF k = "SELECT" THEN selq \o tailq
